@@ -139,6 +139,23 @@ ADD = {
     "C20": ("; the forward spherical model and the measurement recoveries it is inverted against (R5, shared with C04.R10)", "; rational-function normal forms and quadrant agreement"),
 }
 
+# rules added in the continuation of the third session (DESIGN 5.4)
+ADD2 = {
+    "C01": ("; every event of the step's window query is delivered unconditionally (R3 extended); Celestial._prepEvents hands every scheduled event to the integrator - no conditional append (R12)", "; must-pass analysis of the delivery loops"),
+    "C03": ("; the thrust state is cleared on every path of _prepEvents, which precedes the integrator on every path (R5); a batched segment that contains no requested time: solve_ivp's empty-list `t` / `y` are never used as arrays unguarded (R6)", "; must-pass analysis; API-contract (typestate) reading of solve_ivp results"),
+    "C04": ("; mirror symmetry of the geodetic and spherical conversions on every return path by a parity dataflow analysis (R12); ecef2lla equals the cited closed form (Vallado Alg. 13) path-wise as rational functions (R13); dayOfYear through the standard library only for the given date (R6)", "; parity (even / odd) abstract interpretation; path-wise rational-function comparison with a reference transcription"),
+    "C05": ("; the requested run duration reaches the stop date without a truncating operation, unit times value = requested hours (R9)", "; lossy-operator provenance"),
+    "C06": ("; linear measurement components are never flagged angular (R8, shared with C16.R1)", ""),
+    "C08": ("; an executed tasking writes boresight and time_last_tasked on every path of the feasible-slew branch (R7)", "; must-write analysis through helpers"),
+    "C09": ("; one clock per agent: every ScenarioTime field of a job submission is the registrant's own time (+ step), builders pass the clock expression the agent starts from (R11)", "; type-directed provenance of time fields"),
+    "C11": ("; the calendar table / day-of-year rule behind the sidereal rotation (R10, shared with C04.R6)", ""),
+    "C14": ("; the arccos domain guard clips at least 1 + 2 ulp, read off its path conditions with numpy's finfo constants folded (R11); Sun-fraction and line-of-sight formulas as reference-definition comparisons", "; interval reading of guard conditions; reference-definition agreement"),
+    "C15": ("; delivery of the step's events to the addressed agent for any start (R8, shared with C01.R3)", ""),
+    "C18": ("; the normalisation typestate covers every public method that transitively writes the weights (R1 entry discovery)", ""),
+    "C19": ("; every observation routed to a target's update job reaches the filter: registration -> submission -> update, whole list at every hop (R4 update hop)", ""),
+    "C20": ("; the universal-variable and Battin Lambert solvers are the cited algorithms definition by definition, guards included (Vallado Alg. 58 / 59, Battin), and Battin's continued-fraction coefficient tables follow their closed forms (R6, R7)", "; reference-definition agreement (rational-function normal forms under dominating conditions); constant folding of literal tables"),
+}
+
 NA_PENDING = "check not built yet in this session (design in DESIGN.md section 4); will be claimed once its rule module exists"
 
 
@@ -158,9 +175,9 @@ def main():
                     evidence_file=f"/verif/evidence/{pid}.json",
                     replay_cmd_template=f"./check {pid} --replay {{path}}",
                     engine="rsa",
-                    level_claimed=dict(category="other", text=d["text"] + (" Added later" + ADD[pid][0] + "." if pid in ADD else ""), design_ref=d["ref"]),
+                    level_claimed=dict(category="other", text=d["text"] + (" Added later" + ADD[pid][0] + "." if pid in ADD else "") + (" Added in the continuation" + ADD2[pid][0] + "." if pid in ADD2 else ""), design_ref=d["ref"]),
                     level_note=COMMON_NOTE + (" " + d["note"] if d.get("note") else ""),
-                    technique=d["technique"] + (ADD[pid][1] if pid in ADD else ""),
+                    technique=d["technique"] + (ADD[pid][1] if pid in ADD else "") + (ADD2[pid][1] if pid in ADD2 else ""),
                 )
             )
         else:
